@@ -46,7 +46,9 @@ def norm(alt):
     return alt
 
 
-def reference(static, wild, requests, charsub, ext, reserved):
+def reference(static, wild, requests, charsub, ext, reserved, prefix='', suffix=''):
+    # text written directly before '[' / after ']' belongs to every alternative
+    wild = [prefix + a + suffix for a in wild]
     invalid = set(reserved)
     num = 1
     out = []
@@ -93,10 +95,10 @@ def reference(static, wild, requests, charsub, ext, reserved):
     return out
 
 
-def real(static, wild, requests, charsub, ext, reserved):
+def real(static, wild, requests, charsub, ext, reserved, prefix='', suffix=''):
     spec = ' '.join(static)
     if wild:
-        spec += ' [' + ','.join(wild) + ']'
+        spec += ' ' + prefix + '[' + ', '.join(wild) + ']' + suffix
     f = Filenames(spec, charsub, {}, ext, {r: None for r in reserved})
     out = []
     for b in requests:
@@ -113,7 +115,8 @@ def real(static, wild, requests, charsub, ext, reserved):
 
 
 def check_gen(w):
-    args = (w['static'], w['wild'], w['requests'], tuple(w['charsub']) if w.get('charsub') else None, w['ext'], w.get('reserved', []))
+    args = (w['static'], w['wild'], w['requests'], tuple(w['charsub']) if w.get('charsub') else None, w['ext'], w.get('reserved', []),
+            w.get('prefix', ''), w.get('suffix', ''))
     try:
         got = real(*args)
     except Exception as e:
@@ -146,7 +149,8 @@ def gen_case(rng):
             b['title'] = rng.choice(VALS)
         reqs.append(b)
     return dict(static=static, wild=wild, requests=reqs, charsub=rng.choice([None, [':', '_'], [': ', '-']]), ext='.html',
-                reserved=rng.sample(['index.html', 'a.html', 'sect001.html'], rng.randrange(0, 2)))
+                reserved=rng.sample(['index.html', 'a.html', 'sect001.html'], rng.randrange(0, 2)),
+                prefix=rng.choice(['', '', 'book-', 'p_']), suffix=rng.choice(['', '', '.htm', '-x']))
 
 
 def bounded_gen(budget, rng):
@@ -156,6 +160,14 @@ def bounded_gen(budget, rng):
             for static in ([], ['index']):
                 n += 1
                 w = dict(static=static, wild=list(wild), requests=[dict(r) for r in reqs], charsub=None, ext='.html', reserved=[])
+                ok, d = check_gen(w)
+                if not ok:
+                    return False, n, d, w
+    for prefix, suffix in (('book-', ''), ('', '.htm'), ('b-', '-e')):
+        for wild in itertools.permutations(['$id', '$title(2)', 'sect$num(3)'], 3):
+            for reqs in itertools.product([{}, {'id': 'a'}, {'title': 'b c d'}], repeat=3):
+                n += 1
+                w = dict(static=['index'], wild=list(wild), requests=[dict(r) for r in reqs], charsub=None, ext='.html', reserved=[], prefix=prefix, suffix=suffix)
                 ok, d = check_gen(w)
                 if not ok:
                     return False, n, d, w
@@ -178,5 +190,5 @@ def check_ext(w):
 CONTRACTS = {'Filenames.addExtension': dict(check=check_ext, small=lambda: (dict(name=n, ext=e) for n in ['a', 'a.b', '.a', 'a.', 'dir.x/a', ''] for e in ['.html', '']))}
 GROUND = []
 BOUNDED = [('bounded/filenames', 'the sequence of issued names equals the reference model of the template grammar (static names, wildcard alternatives, $num, word limits, forbidden characters, extension); names pairwise distinct and never reserved',
-            'all orderings of 2 out of 3 wildcard alternatives x all sequences of 3 requests out of 4 bindings x static/no static (exhaustive); random templates with 1-3 alternatives and <= 7 requests', bounded_gen)]
+            'all orderings of 2 out of 3 wildcard alternatives x all sequences of 3 requests out of 4 bindings x static/no static, and 3 prefix/suffix pairs x all orderings of 3 alternatives x 27 request sequences (exhaustive); random templates with 1-3 alternatives, prefix / suffix text and <= 7 requests', bounded_gen)]
 CLASSES = {}
